@@ -103,6 +103,7 @@ type interpreter struct {
 	harnessState map[string]value
 	program   *Program
 	initStarted map[*ssa.Function]bool
+	pkgInitDone map[*ssa.Package]bool
 	locks     map[*value]*lockState
 	onces     map[*value]int
 	wgs       map[*value]int
@@ -362,6 +363,26 @@ func visitInstr(fr *frame, instr ssa.Instruction) continuation {
 	case *ssa.IndexAddr:
 		x := fr.get(instr.X)
 		idx := fr.get(instr.Index)
+		if sidx, ok := idx.(sym); ok {
+			// pattern "load of a[i]" with symbolic i over scalars: an ite chain instead of forking
+			if refs := instr.Referrers(); refs != nil && len(*refs) == 1 {
+				if ld, ok := (*refs)[0].(*ssa.UnOp); ok && ld.Op == token.MUL {
+					var elems []value
+					switch x := x.(type) {
+					case []value:
+						elems = x
+					case *value:
+						if x != nil {
+							elems = (*x).(array)
+						}
+					}
+					if len(elems) > 0 && len(elems) <= 1024 && allScalars(elems) {
+						fr.env[instr] = symRef{elems, sidx}
+						break
+					}
+				}
+			}
+		}
 		switch x := x.(type) {
 		case []value:
 			fr.env[instr] = &x[fr.i.symIndex(idx, len(x), "slice index")]
@@ -508,8 +529,10 @@ func callSSA(i *interpreter, caller *frame, callpos token.Pos, fn *ssa.Function,
 		return info.ext(fr, args)
 	}
 	if info.pkgInit && caller != nil {
-		i.callPkgInit(fn)
-		return nil
+		return nil // dependencies are initialised lazily, on first use
+	}
+	if fn.Pkg != nil && !i.pkgInitDone[fn.Pkg] {
+		i.ensureInit(fn.Pkg)
 	}
 	if fn.Blocks == nil {
 		if i.inInit {
